@@ -30,6 +30,7 @@ func checkC05(c *Ctx, r *Result, tier string) {
 
 	// ---- R05b -----------------------------------------------------------------------------------
 	n := 0
+	nBindLoop := 0
 	for _, fn := range c.Implementations(fnIface, "Run") {
 		if c.PkgOf(fn) != "interpreter" {
 			continue
@@ -42,6 +43,7 @@ func checkC05(c *Ctx, r *Result, tier string) {
 			continue
 		}
 		n++
+		nBindLoop += c05Bindings(c, r, fn, scopeIface)
 		key := c.FuncKey(fn)
 		// the body is what is evaluated after the call scope was parented; parameter defaults are
 		// evaluated before, in the caller's scope
@@ -103,6 +105,7 @@ func checkC05(c *Ctx, r *Result, tier string) {
 		}
 	}
 	r.Floor("R05b", n, 1)
+	r.Floor("R05e", nBindLoop, 1)
 
 	// ---- R05c -----------------------------------------------------------------------------------
 	pt, err := ExtractProviders(c)
@@ -160,6 +163,7 @@ func checkC05(c *Ctx, r *Result, tier string) {
 
 	// ---- R05d -----------------------------------------------------------------------------------
 	c05ContainerKeys(c, r)
+	c05ConcatFresh(c, r)
 }
 
 // keyRepr classifies the representation of a map key expression.
@@ -257,4 +261,166 @@ func c05ContainerKeys(c *Ctx, r *Result) {
 	r.Report(Finding{Rule: "R05d", Site: site,
 		Msg: fmt.Sprintf("ECAL map keys are represented differently on the read path {%s} and on the write path {%s} of the variable scope (only read: %s; only write: %s): `m := {1:2}; m[1] := 3; m[1]` yields 2 — the write goes to the string key \"1\", the read finds the number key 1",
 			strings.Join(rk, ","), strings.Join(wk, ","), strings.Join(onlyRead, "; "), strings.Join(onlyWrite, "; "))})
+}
+
+// ---- R05e: parameter bindings are not loop-carried ----------------------------------------------
+
+// loopCarriedPhi: walking back from v through phis and conversions, the first phi that sits in a
+// loop header and receives, over a back edge, a value defined in the loop: v may hold what an
+// earlier iteration computed.
+func loopCarriedPhi(v ssa.Value) *ssa.Phi {
+	seen := map[ssa.Value]bool{}
+	var walk func(v ssa.Value) *ssa.Phi
+	walk = func(v ssa.Value) *ssa.Phi {
+		if v == nil || seen[v] {
+			return nil
+		}
+		seen[v] = true
+		switch x := v.(type) {
+		case *ssa.Phi:
+			b := x.Block()
+			for i, p := range b.Preds {
+				if b.Dominates(p) && i < len(x.Edges) {
+					if _, isConst := x.Edges[i].(*ssa.Const); !isConst {
+						return x
+					}
+				}
+			}
+			for _, e := range x.Edges {
+				if r := walk(e); r != nil {
+					return r
+				}
+			}
+		case *ssa.MakeInterface:
+			return walk(x.X)
+		case *ssa.ChangeInterface:
+			return walk(x.X)
+		case *ssa.ChangeType:
+			return walk(x.X)
+		case *ssa.UnOp:
+			if a, ok := x.X.(*ssa.Alloc); ok {
+				// a spilled local: any store inside a loop that does not dominate the load may be stale;
+				// we only follow the sources
+				for _, s := range cellSources(a) {
+					if r := walk(s); r != nil {
+						return r
+					}
+				}
+			}
+		}
+		return nil
+	}
+	return walk(v)
+}
+
+func c05Bindings(c *Ctx, r *Result, fn *ssa.Function, scopeIface *types.Interface) int {
+	key := c.FuncKey(fn)
+	n := 0
+	ord := newOrdinals()
+	allInstrs(fn, func(in ssa.Instruction) {
+		ci, ok := in.(ssa.CallInstruction)
+		if !ok || !ci.Common().IsInvoke() || !types.Identical(ci.Common().Value.Type().Underlying(), scopeIface) {
+			return
+		}
+		m := ci.Common().Method.Name()
+		if (m != "SetValue" && m != "SetLocalValue") || len(ci.Common().Args) < 2 || !inLoop(in.Block()) {
+			return
+		}
+		n++
+		site := ord.key(key, "param-binding", m)
+		pos := c.Pos(c.InstrPos(in))
+		for i, what := range []string{"name", "value"} {
+			if phi := loopCarriedPhi(ci.Common().Args[i]); phi != nil {
+				r.Instance("R05e", site, pos, "finding", "the bound "+what+" is loop-carried", true)
+				r.Report(Finding{Rule: "R05e", Site: site, Pos: pos,
+					Msg: fmt.Sprintf("%s: the %s bound to a parameter may come from an earlier iteration of the parameter loop (variable %s is carried around the loop): a parameter without argument or default takes the previous parameter's %s instead of null", key, what, phi.Comment, what)})
+				return
+			}
+		}
+		r.Instance("R05e", site, pos, "ok", "name and value bound to the parameter are computed in the same iteration", true)
+	})
+	return n
+}
+
+// ---- R05f: concat returns a new list -------------------------------------------------------------
+
+// inbuildFuncType resolves the implementation type registered under name in interpreter.InbuildFuncMap.
+func inbuildFuncType(c *Ctx, name string) *types.Named {
+	var out *types.Named
+	for _, fn := range initFuncs(c, "interpreter") {
+		allInstrs(fn, func(in ssa.Instruction) {
+			mu, ok := in.(*ssa.MapUpdate)
+			if !ok {
+				return
+			}
+			if k, ok := constString(mu.Key); !ok || k != name {
+				return
+			}
+			mt, ok := mu.Map.Type().Underlying().(*types.Map)
+			if !ok || !strings.HasSuffix(mt.Elem().String(), "util.ECALFunction") {
+				return
+			}
+			if mi, ok := mu.Value.(*ssa.MakeInterface); ok {
+				out = namedOf(mi.X.Type())
+			}
+		})
+	}
+	return out
+}
+
+func c05ConcatFresh(c *Ctx, r *Result) {
+	t := inbuildFuncType(c, "concat")
+	if t == nil {
+		r.Undecide("R05f: the implementation of concat was not found in InbuildFuncMap")
+		return
+	}
+	run := c.Method("interpreter", t.Obj().Name(), "Run")
+	if run == nil {
+		r.Undecide("R05f: Run of %s not found", t.Obj().Name())
+		return
+	}
+	key := c.FuncKey(run)
+	fc := &freshCtx{c: c, callers: map[*ssa.Function][]*ssa.Call{}, memo: map[ssa.Value]int{}, why: map[ssa.Value]string{}}
+	n := 0
+	bad := ""
+	var walk func(v ssa.Value, d int)
+	walk = func(v ssa.Value, d int) {
+		if d > 10 {
+			return
+		}
+		u := unspill(v)
+		if _, isSlice := u.Type().Underlying().(*types.Slice); isSlice {
+			n++
+			if ok, why := fc.fresh(u); !ok {
+				bad = why
+			}
+			return
+		}
+		switch x := u.(type) {
+		case *ssa.Phi:
+			for _, e := range x.Edges {
+				walk(e, d+1)
+			}
+		case *ssa.Const:
+		default:
+			n++
+			bad = accessPath(v) + " (not a list built in this call)"
+		}
+	}
+	for _, rv := range returnedValues(run, 0) {
+		walk(rv, 0)
+	}
+	pos := c.Pos(run.Pos())
+	site := key + "#result-fresh"
+	switch {
+	case bad != "":
+		r.Instance("R05f", site, pos, "finding", "result may alias "+bad, true)
+		r.Report(Finding{Rule: "R05f", Site: site, Pos: pos,
+			Msg: key + ": the list returned by concat may share its backing array with " + bad + " — the result is documented to be a new list; a later add/concat on the argument, or a write through the result, changes the other list"})
+	case n == 0:
+		r.Undecide("R05f: %s returns no list", key)
+	default:
+		r.Instance("R05f", site, pos, "ok", "every returned list is built by make/append in this call (arguments are only copied from)", true)
+	}
+	r.Floor("R05f", n, 1)
 }
